@@ -166,6 +166,16 @@ type gen struct {
 	n      int
 	noExcl bool // leave read-only / create-only fields of Ent unset (C02); set them (C07 wire level) otherwise
 	sparse bool // leave every optional member of a *Params struct unset: the query string is then empty
+	vary   int  // > 0 (thorough tier): numbers outside containers take boundary values, optional members come and go
+}
+
+var varyI32 = []int64{0, -1, 1, -2147483648, 2147483647, 65536}
+var varyI64 = []int64{0, -1, -9223372036854775808, 9223372036854775807, 9007199254740993, 4294967296}
+var varyF = []float64{0, -1.5, 1e21, 1.5e-7, 16777216, -0.25}
+
+// varied: this position may take a varied value (never inside slices and maps: batch keys must stay distinct)
+func (g *gen) varied(path string) bool {
+	return g.vary > 0 && !strings.Contains(path, "[]") && path != "key"
 }
 
 func (g *gen) next() int { g.n++; return g.n }
@@ -202,13 +212,23 @@ func (g *gen) fill(v reflect.Value, path string) {
 	case reflect.Int32:
 		if _, ok := t.MethodByName("IsValid"); ok { // enum
 			v.SetInt(int64(1 + g.next()%3))
+		} else if g.varied(path) {
+			v.SetInt(varyI32[(g.next()+g.vary)%len(varyI32)])
 		} else {
 			v.SetInt(int64(g.next()*7 - 3))
 		}
 	case reflect.Int64, reflect.Int:
-		v.SetInt(int64(g.next())*1000003 - 5)
+		if g.varied(path) && t.Kind() == reflect.Int64 {
+			v.SetInt(varyI64[(g.next()+g.vary)%len(varyI64)])
+		} else {
+			v.SetInt(int64(g.next())*1000003 - 5)
+		}
 	case reflect.Float32, reflect.Float64:
-		v.SetFloat(float64(g.next()) + 0.5)
+		if g.varied(path) {
+			v.SetFloat(varyF[(g.next()+g.vary)%len(varyF)])
+		} else {
+			v.SetFloat(float64(g.next()) + 0.5)
+		}
 	case reflect.Bool:
 		v.SetBool(g.next()%2 == 0)
 	case reflect.Ptr:
@@ -222,6 +242,9 @@ func (g *gen) fill(v reflect.Value, path string) {
 				}
 			}
 			return
+		}
+		if g.varied(path) && g.noExcl && path != "" && strings.Contains(path, ".") && (g.next()+g.vary)%3 == 0 { // (arguments only: what a resource returns is complete)
+			return // an optional member left unset
 		}
 		v.Set(reflect.New(t.Elem()))
 		g.fill(v.Elem(), path)
@@ -449,6 +472,7 @@ type received struct {
 func main() {
 	in := flag.String("in", "", "")
 	c16 := flag.String("c16", "", "behaviours exported from Batch.tla")
+	vary := flag.Int("vary", 0, "argument variation (0: the row's plain arguments)")
 	flag.Parse()
 	out = bufio.NewWriterSize(os.Stdout, 1<<20)
 	defer out.Flush()
@@ -474,7 +498,7 @@ func main() {
 		cs := map[string]any{"resource": row.Node, "method": gm, "text": text, "threshold": row.Cfg.Threshold, "strict": row.Cfg.Strict, "context_path": row.Cfg.Ctx, "mount": row.Cfg.Mount}
 		// ---- server with a recording MockResource
 		var got []received
-		retGen := &gen{text: text, noExcl: false, n: 100}
+		retGen := &gen{text: text, noExcl: false, n: 100, vary: *vary}
 		mock := reflect.New(info.mock)
 		for i := 0; i < info.mock.NumField(); i++ {
 			fld := info.mock.Field(i)
@@ -534,7 +558,7 @@ func main() {
 			violation("C02/no-client-method/"+feat, "the generated client has no method "+gm, cs)
 			continue
 		}
-		argGen := &gen{text: text, noExcl: true}
+		argGen := &gen{text: text, noExcl: true, vary: *vary}
 		currentResource = row.Node
 		batchMode = (row.Cfg.Text + row.Cfg.Threshold) % 3
 		argGen.sparse = batchMode == 1 // one configuration in three: every optional parameter left unset
